@@ -183,13 +183,13 @@ theorem not_mem_eraseP_nodup (l : List Info) (atm : Nat) (hn : l.Pairwise (fun a
 /-! ## the refinement relation -/
 
 def TblRel (gp : Group) (sg : SGroup) : Prop :=
-  gp.nextid = sg.nextid ∧ gp.atoms = sg.live.length ∧
+  gp.atoms = sg.live.length ∧
   ∃ k, k ≤ 28 ∧ gp.hashSize = 2 ^ k ∧ gp.atomList.length = 2 ^ k ∧
     ∀ b, b < 2 ^ k → gp.atomList.getD b [] = sg.live.filter (fun e => e.id % 2 ^ k == b)
 
 def GRel : Option Group → SGroup → Prop
-  | none, sg => sg.count = 0 ∧ sg.nextid = 0
-  | some gp, sg => gp.count = sg.count ∧ gp.nextid = sg.nextid ∧ (0 < gp.count → TblRel gp sg)
+  | none, sg => sg.count = 0
+  | some gp, sg => gp.count = sg.count ∧ (0 < gp.count → TblRel gp sg)
 
 structure SGInv (g : Nat) (sg : SGroup) : Prop where
   dead : sg.count = 0 → sg.live = []
@@ -203,6 +203,8 @@ structure R (s : State) (sp : SState) : Prop where
   len : s.groups.length = MAXGROUP
   grp : ∀ g, g < MAXGROUP → GRel (getG s g) (sp g)
   out : ∀ g, MAXGROUP ≤ g → (sp g).live = [] ∧ (sp g).count = 0 ∧ (sp g).nextid = 0
+  nlen : s.nextIds.length = MAXGROUP
+  nx : ∀ g, g < MAXGROUP → nextId s g = (sp g).nextid
   sinv : ∀ g, g < MAXGROUP → SGInv g (sp g)
   cache : ∀ c ∈ s.cache.toList, SlotOk sp c
   cdist : s.cache.toList.Pairwise (fun a b => a.id = b.id → a.id = FAIL_ATOM)
@@ -262,12 +264,16 @@ theorem slookup_some_count {s sp} (hR : R s sp) {atm o} (h : slookup sp atm = so
   · exact h0
 
 theorem init_R : R State.init SState.init := by
-  refine ⟨by simp [State.init], ?_, ?_, ?_, ?_, ?_⟩
+  refine ⟨by simp [State.init], ?_, ?_, by decide, ?_, ?_, ?_, ?_⟩
   · intro g hg
     have : getG State.init g = none := by
       simp [getG, State.init, List.getD_eq_getElem?_getD, List.getElem?_replicate, hg]
-    rw [this]; exact ⟨rfl, rfl⟩
+    rw [this]; exact rfl
   · intro g _; exact ⟨rfl, rfl, rfl⟩
+  · intro g hg
+    have hM : MAXGROUP = 9 := rfl
+    have : ∀ k, k < 9 → nextId State.init k = 0 := by decide
+    exact this g (by omega)
   · intro g _; exact ⟨fun _ => rfl, by simp [SState.init], (by intro e he; cases he), List.Pairwise.nil⟩
   · intro c hc
     left
@@ -294,17 +300,28 @@ theorem SlotOk_upd {sp : SState} {g : Nat} {sg : SGroup} {x : Info} (hx : SlotOk
   · exact Or.inl hx
   · exact Or.inr (by rw [slookup_upd' sp g sg x.id h]; exact hx)
 
+/-- the id counters still agree when group `g`'s record is replaced by one with the same `nextid` -/
+theorem nx_same {s : State} {sp : SState} (hR : R s sp) (g : Nat) (sg : SGroup) (h : sg.nextid = (sp g).nextid) :
+    ∀ g', g' < MAXGROUP → s.nextIds.getD g' 0 = (upd sp g sg g').nextid := by
+  intro g' hg'
+  have := hR.nx g' hg'
+  unfold nextId at this
+  by_cases hh : g' = g
+  · subst hh; rw [upd_same, h]; exact this
+  · rw [upd_other _ _ _ _ hh]; exact this
+
 /-- replace group `g` on both sides -/
 theorem R_setG {s : State} {sp : SState} (hR : R s sp) (g : Nat) (hg : g < MAXGROUP) (gp : Group) (sg : SGroup)
-    (fl : List Info) (c : Cache)
+    (nx' : List Nat) (fl : List Info) (c : Cache)
+    (hnl : nx'.length = MAXGROUP) (hnx : ∀ g', g' < MAXGROUP → nx'.getD g' 0 = (upd sp g sg g').nextid)
     (hrel : GRel (some gp) sg) (hinv : SGInv g sg)
     (hcache : ∀ x ∈ c.toList, SlotOk (upd sp g sg) x)
     (hdist : c.toList.Pairwise (fun a b => a.id = b.id → a.id = FAIL_ATOM)) :
-    R ⟨s.groups.set g (some gp), fl, c⟩ (upd sp g sg) := by
+    R ⟨s.groups.set g (some gp), nx', fl, c⟩ (upd sp g sg) := by
   have hlen := hR.len
-  refine ⟨by simp [hlen], ?_, ?_, ?_, hcache, hdist⟩
+  refine ⟨by simp [hlen], ?_, ?_, hnl, hnx, ?_, hcache, hdist⟩
   · intro g' hg'
-    have e : getG ⟨s.groups.set g (some gp), fl, c⟩ g' = if g = g' then some gp else getG s g' := by
+    have e : getG ⟨s.groups.set g (some gp), nx', fl, c⟩ g' = if g = g' then some gp else getG s g' := by
       have := getG_setG s g g' gp (by omega)
       simpa [setG, getG] using this
     rw [e]
@@ -353,24 +370,28 @@ theorem step_init {s sp} (hR : R s sp) (grp : Int) (hs : Nat) (hok : hs ≤ 2 ^ 
           simp only [hgp0, hc, if_true, beq_self_eq_true]
           unfold setG
           apply R_setG hR g hg
-          · refine ⟨rfl, rfl, fun _ => ⟨rfl, rfl, k, hk28, hk, by simp [hk], ?_⟩⟩
+          · exact hR.nlen
+          · exact nx_same hR g _ rfl
+          · refine ⟨rfl, fun _ => ⟨rfl, k, hk28, hk, by simp [hk], ?_⟩⟩
             intro b _
             show (List.replicate hs []).getD b [] = _
             rw [getD_replicate_nil]; rfl
-          · exact ⟨by simp, by simp, by simp, List.Pairwise.nil⟩
+          · exact ⟨by simp, hinv.bound, by simp, List.Pairwise.nil⟩
           · intro x hx
             exact SlotOk_upd (hR.cache x hx) (fun _ => by simp [hinv.dead hc])
           · exact hR.cdist
         · cases hgg : getG s g with
-          | none => rw [hgg] at hrel; exact absurd hrel.1 hc
+          | none => rw [hgg] at hrel; exact absurd hrel hc
           | some gp =>
             rw [hgg] at hrel
             have hgc : gp.count ≠ 0 := by rw [hrel.1]; exact hc
             simp only [Option.getD_some, hgc, hc, if_false, beq_iff_eq]
             unfold setG
             apply R_setG hR g hg
-            · refine ⟨by simp [hrel.1], hrel.2.1, fun _ => ?_⟩
-              exact hrel.2.2 (by omega)
+            · exact hR.nlen
+            · exact nx_same hR g _ rfl
+            · refine ⟨by simp [hrel.1], fun _ => ?_⟩
+              exact hrel.2 (by omega)
             · exact ⟨by simp, hinv.bound, hinv.ids, hinv.nodup⟩
             · intro x hx
               exact SlotOk_upd (hR.cache x hx) (fun _ => rfl)
@@ -413,11 +434,11 @@ theorem step_destroy {s sp} (hR : R s sp) (grp : Int) :
     cases hgg : getG s g with
     | none =>
       rw [hgg] at hrel
-      have : (sp g).count = 0 := hrel.1
+      have : (sp g).count = 0 := hrel
       simp [this]; exact hR
     | some gp =>
       rw [hgg] at hrel
-      obtain ⟨hcnt, hnx, htbl⟩ := hrel
+      obtain ⟨hcnt, htbl⟩ := hrel
       by_cases hc : gp.count = 0
       · have : (sp g).count = 0 := by rw [← hcnt]; exact hc
         simp [hc, this]; exact hR
@@ -433,7 +454,9 @@ theorem step_destroy {s sp} (hR : R s sp) (grp : Int) :
           refine ⟨?_, trivial⟩
           unfold setG
           apply R_setG hR g hg
-          · exact ⟨by simp [h1], hnx, fun h => by simp [h1] at h⟩
+          · exact hR.nlen
+          · exact nx_same hR g _ rfl
+          · exact ⟨by simp [h1], fun h => by simp [h1] at h⟩
           · exact ⟨by simp, hinv.bound, by simp, List.Pairwise.nil⟩
           · intro x hx
             have hx' : x ∈ (s.cache.dropGroup (g : Int)).toList := hx
@@ -458,7 +481,9 @@ theorem step_destroy {s sp} (hR : R s sp) (grp : Int) :
           refine ⟨?_, trivial⟩
           unfold setG
           apply R_setG hR g hg
-          · refine ⟨by simp [hcnt], hnx, fun _ => ?_⟩
+          · exact hR.nlen
+          · exact nx_same hR g _ rfl
+          · refine ⟨by simp [hcnt], fun _ => ?_⟩
             exact htbl (by omega)
           · exact ⟨by simp; omega, hinv.bound, hinv.ids, hinv.nodup⟩
           · intro x hx
@@ -507,11 +532,11 @@ theorem step_register {s sp} (hR : R s sp) (grp : Int) (obj : Nat) (hok : opOk s
     cases hgg : getG s g with
     | none =>
       rw [hgg] at hrel
-      have : (sp g).count = 0 := hrel.1
+      have : (sp g).count = 0 := hrel
       simp [this]; exact hR
     | some gp =>
       rw [hgg] at hrel hok
-      obtain ⟨hcnt, hnx, htbl⟩ := hrel
+      obtain ⟨hcnt, htbl⟩ := hrel
       by_cases hc : gp.count = 0
       · have : (sp g).count = 0 := by rw [← hcnt]; exact hc
         simp [hc, this]; exact hR
@@ -521,18 +546,25 @@ theorem step_register {s sp} (hR : R s sp) (grp : Int) (obj : Nat) (hok : opOk s
         simp only [e1, Bool.false_or, decide_eq_true_eq] at hok
         have hA : ATOM_BITS = 28 := rfl
         rw [hA] at hok
-        obtain ⟨hnid, hatoms, k, hk28, hhs, hlen, hch⟩ := htbl (by omega)
+        obtain ⟨hatoms, k, hk28, hhs, hlen, hch⟩ := htbl (by omega)
+        have hnid : nextId (getAtomNode s) g = (sp g).nextid := hR.nx g hg
         simp only [e1, e2, if_false, Bool.false_eq_true]
         rw [hnid]
         refine ⟨?_, rfl⟩
-        have hn : (sp g).nextid < 2 ^ 28 := by rw [← hnid]; exact hok
+        have hn : (sp g).nextid < 2 ^ 28 := by rw [← hR.nx g hg]; exact hok
         have hfresh := fresh_ne hg hinv hn
-        unfold setG getAtomNode
-        apply R_setG hR g hg
         have hnx' : ((sp g).nextid + 1) % 2 ^ UNSIGNED_BITS = (sp g).nextid + 1 := by
           have : UNSIGNED_BITS = 32 := rfl
           simp only [this]; omega
-        · refine ⟨hcnt, hnx', fun _ => ⟨hnx', by simp [hatoms], k, hk28, hhs, by simp [hlen], ?_⟩⟩
+        unfold setG getAtomNode
+        apply R_setG hR g hg
+        · simp [hR.nlen]
+        · intro g' hg'
+          rw [getD_set _ _ _ _ _ (by rw [hR.nlen]; exact hg)]
+          by_cases hh : g = g'
+          · subst hh; simp only [if_true, upd_same]; exact hnx'
+          · simp only [hh, if_false]; rw [upd_other _ _ _ _ (Ne.symm hh)]; exact hR.nx g' hg'
+        · refine ⟨hcnt, fun _ => ⟨by simp [hatoms], k, hk28, hhs, by simp [hlen], ?_⟩⟩
           · intro b hb
             have hloc : (sp g).nextid % gp.hashSize < gp.atomList.length := by
               rw [hhs, hlen]; exact Nat.mod_lt _ (Nat.two_pow_pos k)
@@ -592,7 +624,7 @@ theorem ATOM_TO_LOC_lt (atm k : Nat) (hk : k ≤ 28) : ATOM_TO_LOC atm (2 ^ k) =
 /-- walking the bucket chain of `atm` finds exactly the map entry of `atm` -/
 theorem chain_find {gp : Group} {sg : SGroup} (htbl : TblRel gp sg) (atm : Nat) :
     (gp.atomList.getD (ATOM_TO_LOC atm gp.hashSize) []).find? (fun n => n.id == atm) = sg.live.find? (fun e => e.id == atm) := by
-  obtain ⟨_, _, k, hk28, hhs, _, hch⟩ := htbl
+  obtain ⟨_, k, hk28, hhs, _, hch⟩ := htbl
   obtain ⟨e1, e2⟩ := ATOM_TO_LOC_lt atm k hk28
   rw [hhs, e1, hch _ e2]
   apply find?_filter_imp
@@ -619,11 +651,11 @@ theorem tableFind_spec {s sp} (hR : R s sp) (atm : Nat) :
     cases hgg : getG s (ATOM_TO_GROUP atm) with
     | none =>
       rw [hgg] at hrel
-      have : (sp (ATOM_TO_GROUP atm)).count = 0 := hrel.1
+      have : (sp (ATOM_TO_GROUP atm)).count = 0 := hrel
       simp [hinv.dead this]
     | some gp =>
       rw [hgg] at hrel
-      obtain ⟨hcnt, hnx, htbl⟩ := hrel
+      obtain ⟨hcnt, htbl⟩ := hrel
       by_cases hc : gp.count = 0
       · have : (sp (ATOM_TO_GROUP atm)).count = 0 := by rw [← hcnt]; exact hc
         simp [hc, hinv.dead this]
@@ -649,7 +681,7 @@ theorem findAtom_eq (s : State) (atm : Nat) :
 
 theorem R_cache {s sp} (hR : R s sp) (c : Cache) (h1 : ∀ x ∈ c.toList, SlotOk sp x) (h2 : CDist c.toList) :
     R { s with cache := c } sp :=
-  ⟨hR.len, hR.grp, hR.out, hR.sinv, h1, h2⟩
+  ⟨hR.len, hR.grp, hR.out, hR.nlen, hR.nx, hR.sinv, h1, h2⟩
 
 theorem slookup_FAIL {s sp} (hR : R s sp) : slookup sp FAIL_ATOM = none := by
   apply slookup_empty
@@ -820,14 +852,14 @@ theorem step_remove {s sp} (hR : R s sp) (atm : Nat) :
       simp [this]; exact hR
     | some gp =>
       rw [hgg] at hts hrel
-      obtain ⟨hcnt, hnx, htbl⟩ := hrel
+      obtain ⟨hcnt, htbl⟩ := hrel
       by_cases hc : gp.count = 0
       · simp only [hc, beq_self_eq_true, if_true] at hts
         have : slookup sp atm = none := by simp [slookup, ← hts]
         simp [hc, this]; exact hR
       · have e1 : (gp.count == 0) = false := by simp [hc]
         simp only [e1, if_false, Bool.false_eq_true] at hts ⊢
-        obtain ⟨hnid, hatoms, k, hk28, hhs, hlen, hch⟩ := htbl (by omega)
+        obtain ⟨hatoms, k, hk28, hhs, hlen, hch⟩ := htbl (by omega)
         cases hf : (gp.atomList.getD (ATOM_TO_LOC atm gp.hashSize) []).find? (fun n => n.id == atm) with
         | none =>
           rw [hf] at hts
@@ -844,7 +876,9 @@ theorem step_remove {s sp} (hR : R s sp) (atm : Nat) :
           obtain ⟨e1', e2'⟩ := ATOM_TO_LOC_lt atm k hk28
           unfold setG releaseAtomNode
           apply R_setG hR _ hg
-          · refine ⟨hcnt, hnx, fun _ => ⟨hnid, ?_, k, hk28, hhs, by simp [hlen], ?_⟩⟩
+          · exact hR.nlen
+          · exact nx_same hR _ _ rfl
+          · refine ⟨hcnt, fun _ => ⟨?_, k, hk28, hhs, by simp [hlen], ?_⟩⟩
             · simp only []
               rw [List.length_eraseP_of_mem hnm (by simp [hnid']), hatoms]
             · intro b hb
@@ -884,7 +918,7 @@ theorem step_remove {s sp} (hR : R s sp) (atm : Nat) :
 /-- the nodes reachable from the hash table are exactly the map entries -/
 theorem mem_table {gp : Group} {sg : SGroup} (htbl : TblRel gp sg) (e : Info) :
     e ∈ (gp.atomList.take gp.hashSize).flatten ↔ e ∈ sg.live := by
-  obtain ⟨_, _, k, hk28, hhs, hlen, hch⟩ := htbl
+  obtain ⟨_, k, hk28, hhs, hlen, hch⟩ := htbl
   rw [List.take_of_length_le (by omega)]
   constructor
   · intro h
@@ -918,11 +952,11 @@ theorem step_search {s sp} (hR : R s sp) (grp : Int) (p : Nat → Bool) : Search
     cases hgg : getG s g with
     | none =>
       rw [hgg] at hrel
-      have : (sp g).count = 0 := hrel.1
+      have : (sp g).count = 0 := hrel
       right; simp [hinv.dead this]
     | some gp =>
       rw [hgg] at hrel
-      obtain ⟨hcnt, hnx, htbl⟩ := hrel
+      obtain ⟨hcnt, htbl⟩ := hrel
       by_cases hc : gp.count = 0
       · have : (sp g).count = 0 := by rw [← hcnt]; exact hc
         right; simp [hc, hinv.dead this]
@@ -940,7 +974,27 @@ theorem step_search {s sp} (hR : R s sp) (grp : Int) (p : Nat → Bool) : Search
           left
           exact ⟨n, (hm n).mp (List.mem_of_find?_eq_some hf), by simpa using List.find?_some hf, rfl⟩
 
-/-- `opOk` in the form used by the proofs -/
+/-- `HAshutdown`: every group record is gone, the cache is empty, the id counters stay -/
+theorem step_shutdown {s sp} (hR : R s sp) : R (shutdown s) (sstep sp .shutdown) := by
+  simp only [sstep]
+  refine ⟨by simp [shutdown], ?_, ?_, hR.nlen, ?_, ?_, ?_, ?_⟩
+  · intro g hg
+    have : getG (shutdown s) g = none := by
+      simp [getG, shutdown, List.getD_eq_getElem?_getD, List.getElem?_replicate, hg]
+    rw [this]; exact rfl
+  · intro g hg; exact ⟨rfl, rfl, (hR.out g hg).2.2⟩
+  · intro g hg; exact hR.nx g hg
+  · intro g hg
+    exact ⟨fun _ => rfl, (hR.sinv g hg).bound, (by intro e he; cases he), List.Pairwise.nil⟩
+  · intro c hc
+    left
+    have : (shutdown s).cache.toList = [emptySlot, emptySlot, emptySlot, emptySlot] := rfl
+    rw [this] at hc
+    simp at hc; exact hc
+  · show List.Pairwise _ [emptySlot, emptySlot, emptySlot, emptySlot]
+    decide
+
+/-- every call preserves the relation and returns what the specification allows -/
 theorem step_refines {s sp} (hR : R s sp) (op : Op) (hok : opOk s op = true) :
     R (step s op).1 (sstep sp op) ∧ SOk sp op (step s op).2 := by
   cases op with
@@ -958,7 +1012,7 @@ theorem step_refines {s sp} (hR : R s sp) (op : Op) (hok : opOk s op = true) :
   | group a => exact ⟨hR, rfl⟩
   | remove a => exact step_remove hR a
   | search g m r => exact ⟨hR, _, rfl, step_search hR g _⟩
-  | shutdown => simp [opOk] at hok
+  | shutdown => exact ⟨step_shutdown hR, rfl⟩
 
 theorem run_refines {s sp} (hR : R s sp) (ops : List Op) (hadm : adm s ops = true) :
     R (runS s ops) (srunS sp ops) ∧ SRun sp ops (runR s ops) := by
@@ -996,7 +1050,7 @@ theorem groupCount_eq {s sp} (hR : R s sp) (g : Nat) (hg : g < MAXGROUP) : group
   have := hR.grp g hg
   unfold groupCount
   cases hgg : getG s g with
-  | none => rw [hgg] at this; exact this.1.symm
+  | none => rw [hgg] at this; exact this.symm
   | some gp => rw [hgg] at this; exact this.1
 
 theorem live_group {s sp} (hR : R s sp) {g : Nat} {e : Info} (he : e ∈ (sp g).live) : g < MAXGROUP := by
@@ -1006,7 +1060,7 @@ theorem live_group {s sp} (hR : R s sp) {g : Nat} {e : Info} (he : e ∈ (sp g).
 
 /-- a live registration stays live across a call that neither removes its id nor takes its group's init count to 0 -/
 theorem slive_step (sp : SState) (hdead : ∀ g, (sp g).count = 0 → (sp g).live = []) (op : Op) (e : Info) (g : Nat)
-    (he : e ∈ (sp g).live) (hop : op ≠ .remove e.id) (hsh : op ≠ .shutdown) (hcnt : 0 < (sstep sp op g).count) :
+    (he : e ∈ (sp g).live) (hop : op ≠ .remove e.id) (hcnt : 0 < (sstep sp op g).count) :
     e ∈ (sstep sp op g).live := by
   have hc0 : (sp g).count ≠ 0 := fun h => by rw [hdead g h] at he; cases he
   cases op with
@@ -1060,10 +1114,7 @@ theorem slive_step (sp : SState) (hdead : ∀ g, (sp g).count = 0 → (sp g).liv
         exact (List.mem_eraseP_of_neg (by simp; exact fun h => hne h.symm)).mpr he
       · rw [upd_other _ _ _ _ hg]; exact he
   | search grp m r => exact he
-  | shutdown => exact absurd rfl hsh
-
-theorem opOk_not_shutdown {s : State} {op : Op} (h : opOk s op = true) : op ≠ .shutdown := by
-  intro h'; subst h'; simp [opOk] at h
+  | shutdown => simp only [sstep] at hcnt; exact absurd hcnt (by simp)
 
 /-- `keeps` carries a live registration to the end of the history -/
 theorem keeps_live {s sp} (hR : R s sp) (ops : List Op) (hadm : adm s ops = true) (e : Info)
@@ -1083,7 +1134,7 @@ theorem keeps_live {s sp} (hR : R s sp) (ops : List Op) (hadm : adm s ops = true
       rcases Nat.lt_or_ge g MAXGROUP with h | h
       · exact (hR.sinv g h).dead h0
       · exact (hR.out g h).1
-    have := slive_step sp hdead op e _ he hk1 (opOk_not_shutdown hadm.1) hk2
+    have := slive_step sp hdead op e _ he hk1 hk2
     exact ih hR' hadm.2 this hk3
 
 theorem slookup_of_mem {s sp} (hR : R s sp) (e : Info) (he : e ∈ (sp (ATOM_TO_GROUP e.id)).live) :
@@ -1121,8 +1172,8 @@ theorem find?_none_eraseP {α} (p q : α → Bool) (l : List α) (h : l.find? p 
   intro x hx
   exact h x (List.mem_of_mem_eraseP hx)
 
-/-- without re-initialisation (and without counter wrap) a stale id stays stale -/
-theorem sstale_step {s sp} (hR : R s sp) (op : Op) (hok : opOk s op = true) (hnr : isReinit s op = false)
+/-- as long as the counter does not wrap a stale id stays stale – across re-initialisation and `HAshutdown` too -/
+theorem sstale_step {s sp} (hR : R s sp) (op : Op) (hok : opOk s op = true)
     (atm : Nat) (h : SStale sp atm) : SStale (sstep sp op) atm := by
   have hg := sstale_group hR h
   obtain ⟨hl, hn⟩ := h
@@ -1136,15 +1187,11 @@ theorem sstale_step {s sp} (hR : R s sp) (op : Op) (hok : opOk s op = true) (hnr
     · simp only [hc, if_false, Bool.false_eq_true]
       by_cases hgg : ATOM_TO_GROUP atm = grp.toNat
       · by_cases hz : (sp grp.toNat).count = 0
-        · exfalso
-          simp only [isReinit, hc, if_false, Bool.false_eq_true] at hnr
-          rw [← hgg] at hnr hz
-          cases hget : getG s (ATOM_TO_GROUP atm) with
-          | none => rw [hget] at hrel; have := hrel.2; omega
-          | some gp =>
-            rw [hget] at hrel hnr
-            have : gp.count = 0 := by rw [hrel.1]; exact hz
-            simp [this] at hnr
+        · have e0 : ((sp grp.toNat).count == 0) = true := by simp [hz]
+          simp only [e0, if_true]
+          refine ⟨?_, ?_⟩
+          · unfold slookup; rw [hgg, upd_same]; rfl
+          · rw [hgg, upd_same]; rw [hgg] at hn; exact hn
         · have e0 : ((sp grp.toNat).count == 0) = false := by simp [hz]
           simp only [e0, if_false, Bool.false_eq_true]
           refine ⟨?_, ?_⟩
@@ -1208,7 +1255,7 @@ theorem sstale_step {s sp} (hR : R s sp) (op : Op) (hok : opOk s op = true) (hnr
               cases hget : getG s (ATOM_TO_GROUP atm) with
               | none =>
                 rw [hget] at hrel
-                have h0 : (sp grp.toNat).count = 0 := by rw [← hgg]; exact hrel.1
+                have h0 : (sp grp.toNat).count = 0 := by rw [← hgg]; exact hrel
                 simp [h0] at hz
               | some gp =>
                 rw [hget] at hrel hok
@@ -1217,7 +1264,7 @@ theorem sstale_step {s sp} (hR : R s sp) (op : Op) (hok : opOk s op = true) (hnr
                   have : (sp grp.toNat).count ≠ 0 := by simpa using hz
                   rw [← hgg, ← hrel.1] at this; simp [this]
                 simp only [hcz, Bool.false_or, decide_eq_true_eq, hA] at hok
-                rw [hrel.2.1, hgg] at hok
+                rw [hR.nx _ hg, hgg] at hok
                 rw [Nat.mod_eq_of_lt hok] at this
                 omega
             simp only [List.find?_cons, hne]
@@ -1253,16 +1300,15 @@ theorem sstale_step {s sp} (hR : R s sp) (op : Op) (hok : opOk s op = true) (hnr
         · rw [slookup_upd' _ _ _ _ (fun h => absurd h hgg)]; exact hl
         · rw [upd_other _ _ _ _ hgg]; exact hn
   | search grp m r => exact ⟨hl, hn⟩
-  | shutdown => simp [opOk] at hok
+  | shutdown => exact ⟨rfl, hn⟩
 
-theorem sstale_run {s sp} (hR : R s sp) (ops : List Op) (hadm : adm s ops = true) (hnr : noReinit s ops = true)
+theorem sstale_run {s sp} (hR : R s sp) (ops : List Op) (hadm : adm s ops = true)
     (atm : Nat) (h : SStale sp atm) : SStale (srunS sp ops) atm := by
   induction ops generalizing s sp with
   | nil => exact h
   | cons op ops ih =>
     simp only [adm, Bool.and_eq_true] at hadm
-    simp only [noReinit, Bool.and_eq_true, Bool.not_eq_true'] at hnr
-    exact ih (step_refines hR op hadm.1).1 hadm.2 hnr.2 (sstale_step hR op hadm.1 hnr.1 atm h)
+    exact ih (step_refines hR op hadm.1).1 hadm.2 (sstale_step hR op hadm.1 atm h)
 
 /-- the executable staleness test on the model state is the spec-level one -/
 theorem sstale_of_model {s sp} (hR : R s sp) (atm : Nat) (hi : issued s atm = true) (hl : isLive s atm = false) :
@@ -1278,13 +1324,8 @@ theorem sstale_of_model {s sp} (hR : R s sp) (atm : Nat) (hi : issued s atm = tr
     cases hf : (sp (ATOM_TO_GROUP atm)).live.find? (fun e => e.id == atm) with
     | none => rfl
     | some x => rw [hf] at hl; simp at hl
-  · cases hget : getG s (ATOM_TO_GROUP atm) with
-    | none => rw [hget] at hi; simp at hi
-    | some gp =>
-      rw [hget] at hi hrel
-      have hA : ATOM_BITS = 28 := rfl
-      simp only [decide_eq_true_eq, hA] at hi
-      rw [← hrel.2.1]; exact hi
+  · have hA : ATOM_BITS = 28 := rfl
+    rw [hA, hR.nx _ hg] at hi; exact hi
 
 /-- results of lookups/removals of an id the map does not contain -/
 theorem object_of_none {s sp} (hR : R s sp) (atm : Nat) (h : slookup sp atm = none) :
@@ -1297,47 +1338,55 @@ theorem object_of_none {s sp} (hR : R s sp) (atm : Nat) (h : slookup sp atm = no
 
 
 /-! ## repeated registration (for the counter-wrap witness) -/
-/-- the group record after a successful `HAregister_atom(g, obj)` -/
-def regGroup (g : Nat) (gp : Group) (obj : Nat) : Group :=
-  { gp with atomList := gp.atomList.set (gp.nextid % gp.hashSize)
-                          (⟨MAKE_ATOM g gp.nextid, obj⟩ :: gp.atomList.getD (gp.nextid % gp.hashSize) []),
-            atoms := gp.atoms + 1, nextid := (gp.nextid + 1) % 2 ^ UNSIGNED_BITS }
+/-- the group record after a successful `HAregister_atom(g, obj)` made while `atom_next_id[g] = n` -/
+def regGroup (g n : Nat) (gp : Group) (obj : Nat) : Group :=
+  { gp with atomList := gp.atomList.set (n % gp.hashSize)
+                          (⟨MAKE_ATOM g n, obj⟩ :: gp.atomList.getD (n % gp.hashSize) []),
+            atoms := gp.atoms + 1 }
 
 /-- one `HAregister_atom` into a live group: what it returns and what it leaves -/
 theorem register_one (s : State) (g : Nat) (hg : g < MAXGROUP) (gp : Group) (hlen : s.groups.length = MAXGROUP)
-    (hget : getG s g = some gp) (hc : gp.count ≠ 0) (obj : Nat) :
-    (step s (.register (g : Int) obj)).2 = .atom (MAKE_ATOM g gp.nextid) ∧
+    (hnl : s.nextIds.length = MAXGROUP) (hget : getG s g = some gp) (hc : gp.count ≠ 0) (obj : Nat) :
+    (step s (.register (g : Int) obj)).2 = .atom (MAKE_ATOM g (nextId s g)) ∧
     (step s (.register (g : Int) obj)).1.cache = s.cache ∧
     (step s (.register (g : Int) obj)).1.groups.length = MAXGROUP ∧
-    getG (step s (.register (g : Int) obj)).1 g = some (regGroup g gp obj) := by
+    (step s (.register (g : Int) obj)).1.nextIds.length = MAXGROUP ∧
+    nextId (step s (.register (g : Int) obj)).1 g = (nextId s g + 1) % 2 ^ UNSIGNED_BITS ∧
+    getG (step s (.register (g : Int) obj)).1 g = some (regGroup g (nextId s g) gp obj) := by
   have hb : badGroup (g : Int) = false := by rw [badGroup_nat]; simp; omega
   have e1 : (gp.count == 0) = false := by simp [hc]
-  have hstep : step s (.register (g : Int) obj) = (setG (getAtomNode s) g (regGroup g gp obj), .atom (MAKE_ATOM g gp.nextid)) := by
+  have hstep : step s (.register (g : Int) obj) =
+      (setG { getAtomNode s with nextIds := s.nextIds.set g ((nextId s g + 1) % 2 ^ UNSIGNED_BITS) } g
+        (regGroup g (nextId s g) gp obj), .atom (MAKE_ATOM g (nextId s g))) := by
     simp only [step, registerAtom, hb, if_false, Bool.false_eq_true, Int.toNat_natCast, hget, e1, regGroup]
+    rfl
   rw [hstep]
-  refine ⟨rfl, rfl, ?_, ?_⟩
+  refine ⟨rfl, rfl, ?_, ?_, ?_, ?_⟩
   · simp [setG, getAtomNode, hlen]
+  · simp [setG, getAtomNode, hnl]
+  · simp only [nextId, setG]
+    rw [getD_set _ _ _ _ _ (by omega)]; simp
   · rw [getG_setG _ _ _ _ (by simp [getAtomNode]; omega)]; simp
 
 /-- `n` further registrations into a live single-bucket group only advance the counter -/
 theorem register_many (n : Nat) (c : Nat) (g : Nat) (hg : g < MAXGROUP) :
-    ∀ (s : State) (gp : Group), s.groups.length = MAXGROUP → getG s g = some gp → gp.count ≠ 0 → gp.hashSize = 1 →
-      gp.atomList.length = 1 → gp.nextid + n < 2 ^ 32 →
+    ∀ (s : State) (gp : Group), s.groups.length = MAXGROUP → s.nextIds.length = MAXGROUP → getG s g = some gp →
+      gp.count ≠ 0 → gp.hashSize = 1 → gp.atomList.length = 1 → nextId s g + n < 2 ^ 32 →
       ∃ gp', getG (runS s (List.replicate n (.register (g : Int) c))) g = some gp' ∧ gp'.count ≠ 0 ∧ gp'.hashSize = 1 ∧
-        gp'.atomList.length = 1 ∧ gp'.nextid = gp.nextid + n ∧
+        gp'.atomList.length = 1 ∧ nextId (runS s (List.replicate n (.register (g : Int) c))) g = nextId s g + n ∧
         (runS s (List.replicate n (.register (g : Int) c))).cache = s.cache ∧
-        (runS s (List.replicate n (.register (g : Int) c))).groups.length = MAXGROUP := by
+        (runS s (List.replicate n (.register (g : Int) c))).groups.length = MAXGROUP ∧
+        (runS s (List.replicate n (.register (g : Int) c))).nextIds.length = MAXGROUP := by
   induction n with
-  | zero => intro s gp hlen hget hc hhs hal _; exact ⟨gp, hget, hc, hhs, hal, rfl, rfl, hlen⟩
+  | zero => intro s gp hlen hnl hget hc hhs hal _; exact ⟨gp, hget, hc, hhs, hal, rfl, rfl, hlen, hnl⟩
   | succ n ih =>
-    intro s gp hlen hget hc hhs hal hn
-    obtain ⟨_, hcache, hlen', hget'⟩ := register_one s g hg gp hlen hget hc c
+    intro s gp hlen hnl hget hc hhs hal hn
+    obtain ⟨_, hcache, hlen', hnl', hnx, hget'⟩ := register_one s g hg gp hlen hnl hget hc c
     simp only [List.replicate_succ, runS]
     have hU : UNSIGNED_BITS = 32 := rfl
-    have hnx : (regGroup g gp c).nextid = gp.nextid + 1 := by
-      simp only [regGroup, hU]; exact Nat.mod_eq_of_lt (by omega)
-    obtain ⟨gp', h1, h2, h3, h4, h5, h6, h7⟩ := ih _ _ hlen' hget' hc hhs (by simp [regGroup, hal]) (by rw [hnx]; omega)
-    refine ⟨gp', h1, h2, h3, h4, ?_, by rw [h6, hcache], h7⟩
+    rw [hU, Nat.mod_eq_of_lt (by omega)] at hnx
+    obtain ⟨gp', h1, h2, h3, h4, h5, h6, h7, h8⟩ := ih _ _ hlen' hnl' hget' hc hhs (by simp [regGroup, hal]) (by rw [hnx]; omega)
+    refine ⟨gp', h1, h2, h3, h4, ?_, by rw [h6, hcache], h7, h8⟩
     rw [h5, hnx]; omega
 
 theorem ATOM_TO_LOC_one (a : Nat) : ATOM_TO_LOC a 1 = 0 := by
